@@ -23,10 +23,12 @@ def levels(tier):
              "alphabet": ["links", "page"], "links_batch": 1, "defaults": ["never"], "ks": [1, 2, 3], "depths": [None, 1]},
         ]
     return [
-        {"name": "tpl-n2", "n": 2, "prelude": TPL, "alphabet": ["links", "page", "we", "addprefix"], "links_batch": 1, "defaults": ["never", "domain"],
-         "ks": [1, 2, 3, 4, 6], "depths": [None, 0, 1, 2], "pool": POOL5},
-        {"name": "n3", "n": 3, "alphabet": ["links", "we"], "links_batch": 2, "defaults": ["domain"], "pool": [POOL4[0], POOL4[1], POOL4[3]],
-         "ks": [1, 2, 4], "depths": [None, 0, 1]},
+        {"name": "nested-prefixes-n2", "n": 2, "prelude": [["page", 0, False], ["links", [[3, 2], [0, 2], [3, 1], [2, 0]]], ["we", [[0, 3], [1, 4]]]],
+         "alphabet": ["links", "page"], "links_batch": 1, "defaults": ["never"], "ks": [1, 2, 3], "depths": [None, 1]},
+        {"name": "tpl-n2", "n": 2, "prelude": TPL, "alphabet": ["links", "page", "we"], "links_batch": 1, "defaults": ["never"],
+         "ks": [1, 2, 3, 4], "depths": [None, 0, 1, 2]},
+        {"name": "n3", "n": 3, "alphabet": ["links", "we"], "links_batch": 1, "defaults": ["domain"], "pool": [POOL4[0], POOL4[1], POOL4[3]],
+         "ks": [1, 2], "depths": [None]},
     ]
 
 
